@@ -1268,8 +1268,14 @@ void readin (void)
 	comment("A lexical scanner generated by flex\n");
 
 	/* Dump the %top code. */
-	if( top_buf.elts)
+	if( top_buf.elts) {
+		/* The blocks carry their own line directives; with -L /
+		 * %option noline those must vanish like all the others.
+		 */
+		if (!ctrl.gen_line_dirs)
+			outn("m4_define([[M4_HOOK_TRACE_LINE_FORMAT]], [[]])m4_dnl");
 		outn((char*) top_buf.elts);
+	}
 
 	/* Place a bogus line directive, it will be fixed in the filter. */
 	line_directive_out(NULL, NULL, 0);
